@@ -130,6 +130,16 @@ def run(ck: Checker):
     check_wait_config(ck, 'C09-4', ck.repo.func(WORKER, 'Worker.__init__'), param='batch_wait_time', attr='self.batch_wait_time')
     # ---------------------------------------------------------------- C09-3
     check_one_destination(ck, 'C09-3')
+    ck.rule('C09-8', 'the batch buffer can hold a whole batch: it is created with at least `batch_size` slots (a smaller buffer makes the collector wait for room while call() waits for the batch to fill: every batch is cut short at the buffer size) (LINEAR)')
+    from .linear import linear_form
+
+    sb = mod.func('Worker._start_batch')
+    bb = [n for n in walk_shallow_func(sb.node) if isinstance(n, ast.Assign) and dotted(n.targets[0]) == BUF and isinstance(n.value, ast.Call)]
+    ck.need(bb, f'{sb.key}: creation of the batch buffer not found')
+    arg = bb[0].value.args[0] if bb[0].value.args else kwarg(bb[0].value, 'maxsize')
+    lf = linear_form(arg, sb) if arg is not None else None
+    okb = lf is not None and lf[0] >= 1 and lf[1] >= 0 and (lf[2] or '').endswith('batch_size')
+    ck.ob('C09-8', sb, bb[0], okb, f'the batch buffer has `{norm_text(arg)}` slots: room for a full batch' if okb else f'the batch buffer is created with `{norm_text(arg) if arg is not None else "no size"}`: not provably at least `batch_size` slots')
     ck.rule('C09-7', 'a started batch is handed over on every exit of _get_input_batch; the queue locks are per queue and not disabled (the collector blocks in get() holding the read lock of ONE queue; several workers write to one pipe under its writer lock)', minimum=3)
     check_batch_returned(ck, 'C09-7', mod.func('Worker._get_input_batch'))
     check_queue_locks(ck, 'C09-7')
